@@ -54,12 +54,13 @@ def _raw(x):
 
 
 class Interp:
-    def __init__(self, db, env=None, log=None, call_hook=None, max_depth=12):
+    def __init__(self, db, env=None, log=None, call_hook=None, max_depth=12, effect_names=()):
         self.db = db
         self.env = dict(env or {})     # symbol key (canon string) -> value
         self.log = log if log is not None else []
         self.call_hook = call_hook      # (name, args, node) -> value or NotImplemented
         self.effects = []               # calls evaluated for effect: (name, [args])
+        self.effect_names = set(effect_names)
         self.depth = 0
         self.max_depth = max_depth
 
@@ -471,7 +472,7 @@ class Interp:
         if e.get("kind") in ("CallExpr", "CXXMemberCallExpr"):
             name, did, kind = self.db.callee(e)
             f = self.db.definition(did) if did else None
-            if f is None or name in ("DoError",):
+            if f is None or name in ("DoError",) or name in self.effect_names:
                 argv = []
                 for a in self.db.call_args(e):
                     try:
